@@ -315,11 +315,17 @@ func (ce *codecEngine) madeWith(v ssa.Value, at ssa.Instruction) *ssa.MakeSlice 
 		var found *ssa.MakeSlice
 		n := 0
 		eachInstr(at.Parent(), func(in ssa.Instruction) {
-			if st, ok := in.(*ssa.Store); ok && newExprCtx(ce.w).expr(st.Addr) == want {
-				n++
-				if ms, ok := stripChangeType(st.Val).(*ssa.MakeSlice); ok {
-					found = ms
-				}
+			st, ok := in.(*ssa.Store)
+			if !ok || newExprCtx(ce.w).expr(st.Addr) != want {
+				return
+			}
+			// only stores from which the use can be reached count (a reset on a path that returns does not)
+			if !instrReaches(st, at) {
+				return
+			}
+			n++
+			if ms, ok := stripChangeType(st.Val).(*ssa.MakeSlice); ok && dominatesInstr(st, at) {
+				found = ms
 			}
 		})
 		if n == 1 {
@@ -464,9 +470,13 @@ func (ce *codecEngine) decoder(typ string) *codecInfo {
 		var lenArg ssa.Value
 		var k ssa.Value
 		var failSucc, passSucc *ssa.BasicBlock
-		if lc, ok := bo.X.(*ssa.Call); ok && isBuiltin(lc, "len") && isBytes(lc.Common().Args[0].Type()) {
-			lenArg, k = lc.Common().Args[0], bo.Y
-			switch bo.Op {
+		isLenBytes := func(v ssa.Value) bool {
+			lc, ok := v.(*ssa.Call)
+			return ok && isBuiltin(lc, "len") && isBytes(lc.Common().Args[0].Type())
+		}
+		if op, x, y, ok := orientCmp(bo, isLenBytes); ok {
+			lenArg, k = x.(*ssa.Call).Common().Args[0], y
+			switch op {
 			case token.LSS: // len < K -> fail
 				failSucc, passSucc = b.Succs[0], b.Succs[1]
 			case token.GEQ:
@@ -575,7 +585,7 @@ func (ce *codecEngine) decoder(typ string) *codecInfo {
 			if il {
 				at = o.in
 			}
-			nd := codecNested{off: at, typ: nt, dest: normField(newExprCtx(ce.w).expr(cv.Common().Args[0])), loop: il, pos: cv}
+			nd := codecNested{off: at, typ: nt, dest: ce.destExpr(cv.Common().Args[0], cv), loop: il, pos: cv}
 			if il {
 				for ph, bl := range loops {
 					if loopBlocks(ph.Block())[cv.Block()] {
@@ -1043,4 +1053,100 @@ func (ce *codecEngine) srcOf(v ssa.Value) (src, via string) {
 		break
 	}
 	return normField(newExprCtx(ce.w).expr(v)), via
+}
+
+// instrReaches: b can execute after a (same block later, or a's block reaches b's block in the CFG).
+func instrReaches(a, b ssa.Instruction) bool {
+	if a.Block() == b.Block() {
+		ia, ib := -1, -1
+		for i, in := range a.Block().Instrs {
+			if in == a {
+				ia = i
+			}
+			if in == b {
+				ib = i
+			}
+		}
+		if ia < ib {
+			return true
+		}
+	}
+	seen := map[*ssa.BasicBlock]bool{}
+	stack := append([]*ssa.BasicBlock{}, a.Block().Succs...)
+	for len(stack) > 0 {
+		x := stack[len(stack)-1]
+		stack = stack[:len(stack)-1]
+		if seen[x] {
+			continue
+		}
+		seen[x] = true
+		if x == b.Block() {
+			return true
+		}
+		stack = append(stack, x.Succs...)
+	}
+	return false
+}
+
+func mirrorOp(op token.Token) token.Token {
+	switch op {
+	case token.LSS:
+		return token.GTR
+	case token.GTR:
+		return token.LSS
+	case token.LEQ:
+		return token.GEQ
+	case token.GEQ:
+		return token.LEQ
+	}
+	return op
+}
+
+// orientCmp returns the comparison bo with the operand satisfying left on the left-hand side
+// (`K > len(x)` is read as `len(x) < K`).
+func orientCmp(bo *ssa.BinOp, left func(ssa.Value) bool) (token.Token, ssa.Value, ssa.Value, bool) {
+	if !isCmp(bo.Op) {
+		return 0, nil, nil, false
+	}
+	if left(bo.X) {
+		return bo.Op, bo.X, bo.Y, true
+	}
+	if left(bo.Y) {
+		return mirrorOp(bo.Op), bo.Y, bo.X, true
+	}
+	return 0, nil, nil, false
+}
+
+// destExpr renders the location a nested decoder fills. An element of a slice that was made locally and
+// stored (once, before the use) to a location L is rendered as an element of L: `s := make(T, n); *p = s; s[i]`
+// is `(*p)[i]`.
+func (ce *codecEngine) destExpr(v ssa.Value, at ssa.Instruction) string {
+	if ia, ok := v.(*ssa.IndexAddr); ok {
+		if ms, ok := stripChangeType(ia.X).(*ssa.MakeSlice); ok {
+			var addr ssa.Value
+			n := 0
+			if refs := ms.Referrers(); refs != nil {
+				for _, r := range *refs {
+					if st, ok := r.(*ssa.Store); ok && stripChangeType(st.Val) == ssa.Value(ms) && dominatesInstr(st, at) {
+						addr = st.Addr
+						n++
+					}
+				}
+			}
+			// the stored value may be a ChangeType of the MakeSlice
+			if n == 0 {
+				eachInstr(at.Parent(), func(in ssa.Instruction) {
+					if st, ok := in.(*ssa.Store); ok && stripChangeType(st.Val) == ssa.Value(ms) && dominatesInstr(st, at) {
+						addr = st.Addr
+						n++
+					}
+				})
+			}
+			if n == 1 {
+				e := newExprCtx(ce.w)
+				return normField(e.expr(addr)) + "[" + e.expr(ia.Index) + "]"
+			}
+		}
+	}
+	return normField(newExprCtx(ce.w).expr(v))
 }
